@@ -429,6 +429,18 @@ static void family_struct(std::vector<hm::Scenario>& out, unsigned oracles, cons
     P("L1one", {{mk(REMOVE, ykc::P8() + "a")}, {mk(PUT, ykc::P8() + "b", 2)}}, true);
     P("L1one", {{mk(REMOVE, ykc::P8() + "a")}, {mk(PUT, ykc::P8() + "a", 2)}}, true);
     P("L1one", {{mk(REMOVE, ykc::P8() + "a")}, {mk(REMOVE, "10")}}, true);
+    // root emptied by two removers, revived by a third operation
+    P("B2", {{mk(REMOVE, "10")}, {mk(REMOVE, "20")}}, true);
+    P("B2", {{mk(REMOVE, "10")}, {mk(REMOVE, "20"), mk(PUT, "15", 2)}}, true);
+    P("B2", {{mk(REMOVE, "10")}, {mk(REMOVE, "20")}, {mk(PUT, "15", 2)}}, true);
+    P("B2", {{mk(REMOVE, "10"), mk(PUT, ykc::P8() + "a", 2)}, {mk(REMOVE, "20")}}, false);
+    // three layers: the innermost layer is emptied by two removers (chain: layer-2 root border -> link in layer 1 -> ...)
+    P("L2", {{mk(REMOVE, ykc::P8() + ykc::P8() + "x")}, {mk(REMOVE, ykc::P8() + ykc::P8() + "y")}}, true);
+    P("L2", {{mk(REMOVE, ykc::P8() + ykc::P8() + "x"), mk(REMOVE, ykc::P8() + ykc::P8() + "y")}, {mk(REMOVE, ykc::P8() + "a")}}, true);
+    P("L2", {{mk(REMOVE, ykc::P8() + ykc::P8() + "x"), mk(REMOVE, ykc::P8() + ykc::P8() + "y")}, {mk(PUT, ykc::P8() + ykc::P8() + "xx", 2)}}, true);
+    P("L2", {{mk(REMOVE, ykc::P8() + ykc::P8() + "x"), mk(REMOVE, ykc::P8() + ykc::P8() + "y")}, {mk(REMOVE, ykc::P8() + "a")}, {mk(REMOVE, "10")}}, false);
+    P("L1_3", {{mk(REMOVE, ykc::P8() + "a"), mk(REMOVE, ykc::P8() + "b")}, {mk(REMOVE, ykc::P8() + "c")}}, true);
+    P("L1_3", {{mk(REMOVE, ykc::P8() + "a"), mk(REMOVE, ykc::P8() + "b")}, {mk(REMOVE, ykc::P8() + "c"), mk(PUT, ykc::P8() + "c", 2)}}, false);
     // root emptied and revived
     P("B1", {{mk(REMOVE, "10")}, {mk(PUT, "20", 2)}}, true);
     P("B1", {{mk(REMOVE, "10")}, {mk(PUT, "10", 2)}}, true);
